@@ -527,6 +527,13 @@ class _Probe:
         return m
 
 
+def _in_alarm_nest(nodes, n) -> bool:
+    """`n` is, or lies inside, a Watch / Alarm that is itself nested in an Alarm."""
+    chain = [n] + _ancestors(nodes, n)
+    return any(a["cls"] in ("WatchNode", "AlarmNode") and any(b["cls"] == "AlarmNode" for b in chain[x + 1:])
+               for x, a in enumerate(chain))
+
+
 def _allowed_clocks(n, nodes, prev, cur, pre: dict, moments: list[dict], lexical: bool = True):
     """The clock values the property allows for a start of `n` in a tick in which the scope / block stacks, the
     Block tag or the Base unit changed: at every moment of the tick (tick start, after each scope / block event,
@@ -669,6 +676,13 @@ def oracle_case(case: dict, stats: dict | None = None):
                                         f"to run in a block that started in tick {k} (block accumulator 0) and started in "
                                         f"that tick: the block accumulator tag still showed "
                                         f"{prev['tags'][_clock_tags(unit)[1]]} of the enclosing scope")
+                        if not ok and _in_alarm_nest(cn, n):
+                            # recorded alarm-nest root cause: a Watch/Alarm nested in an Alarm keeps its (orphaned)
+                            # generator when the Alarm re-arms; that generator completes nodes the new invocation
+                            # is waiting on (`_is_awaiting_threshold` is False for a completed node)
+                            return fail("threshold-instruction-started-before-clock-reached-threshold:alarm-nest", k,
+                                        f"line {n['line']} ({n['name']}: {n['arg']}) threshold {n['threshold']}, inside a "
+                                        f"Watch/Alarm nested in an Alarm, started in tick {k}, but {seen}")
                         if not ok:
                             return fail("threshold-instruction-started-before-clock-reached-threshold", k,
                                         f"line {n['line']} ({n['name']}: {n['arg']}) threshold {n['threshold']} started in "
